@@ -297,7 +297,11 @@ func C20(c *core.Ctx) error {
 		c.Ev.Distinct("states", id)
 		replay := map[string]any{"case": id, "tags_on_first_commit": cs.tags, "annotated": cs.annot, "worktree": cs.tree, "VERSION": cs.version, "args": args,
 			"exit": r.Exit, "refs_before": refs0, "refs_after": refs1, "stderr": firstN(r.Stderr, 500)}
-		if r.Panicked() || r.TimedOut {
+		if core.ResourceFailure(r) {
+			c.Skip("run timed out or was killed")
+			return
+		}
+		if r.Panicked() {
 			c.Report("crash:"+id, "tagger crashed: "+firstN(r.Stderr, 500), replay)
 			return
 		}
